@@ -101,6 +101,24 @@ def generate(rng: random.Random, tier: str) -> dict:
             "callers": callers, "events": events}
 
 
+def systematic(tier: str):
+    """In-phase, in-order regime on a grid: two callers started together, answers at every pair t_a <= t_b of grid instants (incl. +-1 around the
+    poll edges) x which of them holds a (never fired) token x carrier."""
+    out = []
+    step = 64 if tier == "quick" else 16
+    dl = int(1.0 / TICK)
+    grid = sorted(set(range(1, dl, step)) | {511, 512, 513, dl - 1})
+    for ia, ta in enumerate(grid):
+        for tb in grid[ia:]:
+            for tokens in ((False, False), (True, False), (False, True), (True, True)):
+                callers = [{"start": 0, "timeout": 1.0, "mid": f"c{i}", "method": "ping", "token": tokens[i]} for i in range(2)]
+                events = [{"t": ta, "tie": 0, "hops": 0, "kind": "answer", "caller": 0, "err": False, "m": "mk0"},
+                          {"t": tb, "tie": 0, "hops": 0, "kind": "answer", "caller": 1, "err": False, "m": "mk1"}]
+                out.append({"v": 1, "uuid_seed": 99, "mode": "model_validate", "carrier": "raw" if (ta + tb) % 3 else "stdio", "regime": "inphase",
+                            "coalesce": True, "callers": callers, "events": events})
+    return out
+
+
 def simplify(scn):
     if scn.get("regime"):
         return  # the regime is a property of the whole scenario: editing events/starts would leave it
